@@ -1,9 +1,10 @@
 CONSTANTS
-  MaxLines = 3
+  MaxLines = 2
   SampleChoices <- Samples1
-  Reduce = TRUE
+  Reduce = FALSE
   ChunkSizes = {1, 2}
   BootMax = 3
+  Alphabet = 4
   Mode = "geno"
   FlagSet = "small"
   AllProjDepth = 1
